@@ -10,7 +10,7 @@ META = {
     "level": "translation_validation",
     "engine": "E1 artifact-level SMT: every original node of the transformed circuit is proved equal to the original for all valuations; plus an E2 tier in which the circuit STRUCTURE itself is symbolic for limit_fanin/limit_fanout",
     "hashseeds": {"quick": [0, 1], "thorough": [0, 1, 2, 3, 4, 5, 6, 7]},
-    "shards": {"quick": 8, "thorough": 2},
+    "shards": {"quick": 8, "thorough": 4},
     "bounds": {
         "quick": "SYMBOLIC STRUCTURE (E2): limit_fanin / limit_fanout (k=2) run on EVERY lint-clean blackbox-free circuit over N=4 ordered names at once (presence, the 11 types, output flags and all forward edges are z3 variables; function preservation for all valuations, bound k and io decided per path by z3); plus E1 families: F-unit with arity 1..8 (all 6 multi-input types), type pairs, fan-out stars with 1..8 loads, F-shape, F-bb, 30 random DAGs (<=12 gates); k=2..5; insert_registers stages 1..3 with every inserted flop made transparent; acyclic_unroll on every acyclic blackbox-free member; ALL input / blackbox-output valuations",
         "thorough": "symbolic structure N=4 (k=2) and N=5 (k=2,3); E1: same + 300 random DAGs + 60 DAGs with 24 gates, 8 hash seeds",
